@@ -128,7 +128,8 @@ def run(prog: Program, chk: Check):
         paths = [[(guards.fold_consts(guards.subst(e, cm), res), pol) for e, pol in p] for p in gs.at(n)]
         for fld, mx in gates.items():
             goal = guards.parse(f"not ({hdr_p}.{fld} < 0) and not ({hdr_p}.{fld} > {mx})")
-            bad = guards.any_path_implies(paths, goal)
+            with guards.int_theory():
+                bad = guards.any_path_implies(paths, goal)
             R3.decide(not bad, fkey(fm, f"{fld}:{norm(c)}"), where(fm, c), f"0 <= {fld} <= {mx} established before the send",
                       f"`{norm(c)}` reachable without the range test 0 <= {hdr_p}.{fld} <= {mx}")
 
